@@ -111,7 +111,7 @@ def correspondence(ctx):
     from gstools.field.generator import IncomprRandMeth
     warnings.simplefilter("ignore")
     rng = np.random.RandomState(ctx.seed + 1600)
-    n = ctx.scale(120, 1500)
+    n = ctx.scale(170, 1700)
     jobs, cases = [], []
     dist = {}
     skipped = 0
@@ -351,7 +351,7 @@ def source_divergence(ctx, n):
 
 
 def search(ctx, deep=False):
-    n = ctx.scale(102, 1020) * (3 if deep else 1)
+    n = ctx.scale(170, 1360) * (3 if deep else 1)
     ev1, v1, worst1, k2min = api_divergence(ctx, n, deep)
     ctx.log(f"divergence: {ev1} points, worst |div|/tol = {worst1:.3g}, min |k|^2 len_scale^2 = {k2min:.3g}")
     ev2, v2, worst2 = api_moments(ctx, deep)
